@@ -96,6 +96,22 @@ def main():
               rep.violation(f"range-misses-{r['desc']}", f"{r['desc']}: outputs not listed by range()", {"config": c})
             if not set(rg.tolist()) <= reach:
               rep.violation(f"range-unreached-{r['desc']}", f"{r['desc']}: range() lists values never produced", {"config": c})
+      if c["fam"] == "qlin" and 1 <= bits <= 8 and c.get("alpha") in (None, 1.0):     # as for quantized_bits: exact set equality needs scale 1
+        # quantized_linear.range(): exactly the reachable set (codes from its clip bounds times the scale it used)
+        try:
+          rg = np.asarray(q.range(), dtype=np.float64).reshape(-1)
+          reach = set(yy.tolist())
+          rgs = set(rg.tolist())
+          if len(rgs) != rg.size:
+            rep.violation(f"qlin-range-duplicates-{r['desc']}", f"{r['desc']}.range() lists a value twice", {"config": c})
+          if not reach <= rgs:
+            miss = sorted(reach - rgs)[:3]
+            rep.violation(f"qlin-range-misses-{r['desc']}", f"{r['desc']}: outputs {miss} are not listed by range()", {"config": c})
+          if not rgs <= reach:
+            extra = sorted(rgs - reach)[:3]
+            rep.violation(f"qlin-range-unreached-{r['desc']}", f"{r['desc']}: range() lists {extra}, which no input produces", {"config": c})
+        except Exception as e:  # pylint: disable=broad-except
+          rep.violation(f"qlin-range-raises-{r['desc']}", f"{r['desc']}.range() raised {type(e).__name__}: {str(e)[:200]}", {"config": c})
       if c["fam"] == "qrelu" and c["slope"] is None and c["rub"] is None and 1 <= bits <= 8:
         rg = np.asarray(q.range(), dtype=np.float64).reshape(-1)
         exp = np.arange(2 ** bits) * 2.0 ** se
